@@ -46,6 +46,13 @@ pub fn check_valid<T: PurlShape>(ctx: &Ctx, input: &str, how: &str, p: &GenericP
         if p.qualifiers().get(ks) != Some(v) {
             bad("qualifier retrievable by its key", format!("get({ks:?}) = {:?}, iter gives {v:?}", p.qualifiers().get(ks)));
         }
+        // the key compares equal to its own text, to itself and to nothing longer or shorter (the comparisons a caller -- or a
+        // user-written hook -- makes against string literals)
+        let longer = format!("{ks}x");
+        if !(*k == *ks) || !(*k == k.clone()) || *k == longer.as_str() || (ks.len() > 1 && *k == &ks[..ks.len() - 1])
+            || k.partial_cmp(ks) != Some(std::cmp::Ordering::Equal) || k.partial_cmp(longer.as_str()) != Some(std::cmp::Ordering::Less) {
+            bad("qualifier retrievable by its key", format!("key {ks:?} does not compare as its own text (==, partial_cmp against str)"));
+        }
     }
     if builtin {
         let t = p.package_type().package_type();
